@@ -7,6 +7,7 @@ from ..pyfront import unparse
 from .. import templ, predabs
 from . import shared_gen as G
 from . import shared_cxx as X
+from . import shared_model as M
 
 
 def run(ctx, L, tier):
@@ -22,6 +23,8 @@ def run(ctx, L, tier):
     X.f5b_encoder(ctx, L)
     X.optional_codec_cxx(ctx, L)
     byte_size_header(ctx, L)
+    M.size_formulas(ctx, L)
+    M.dynamic_predicates(ctx, L)
     return sorted(set(o.rule for o in L.obligations))
 
 
